@@ -41,6 +41,31 @@ REAL_KEYS = ['helm.sh/chart', 'meta.helm.sh/release-name', 'kopf.zalando.org/las
 WIRE_VALUES = ['what?', '>=1.2.3', '~x', 'a?b>c~d', 'x>y', '??', 'ok', 'chart-1.2.3', '->', 'q?']
 
 
+def _foreign_errors() -> list[dict]:
+    """Exceptions that are NOT admission errors but carry what an AdmissionError carries: a `code` (int, numeric str, symbolic
+    str, 0, None, bool) and a `message`; subclasses of PermanentError/TemporaryError with a code; kopf's own K8s API errors
+    as the client builds them from a response; HTTP errors of urllib / aiohttp."""
+    out: list[dict] = []
+    for code in (404, 403, 0, None, '409', 'E_QUOTA', True, 200):
+        out.append({'cls': 'codeexc', 'args': ['lookup failed'], 'attrs': {'code': code, 'message': 'not yours'}})
+    for code in (422, 0, 'Invalid'):
+        out.append({'cls': 'permcode', 'args': ['bad spec'], 'attrs': {'code': code}})
+        out.append({'cls': 'tempcode', 'args': [], 'attrs': {'code': code, 'message': 'later'}})
+    out.append({'cls': 'apinotfound', 'status': 404,
+                'payload': {'kind': 'Status', 'code': 404, 'reason': 'NotFound', 'message': 'configmaps "limits" not found'}})
+    out.append({'cls': 'apiforbidden', 'status': 403,
+                'payload': {'kind': 'Status', 'code': 403, 'reason': 'Forbidden', 'message': 'pods is forbidden'}})
+    out.append({'cls': 'apiconflict', 'status': 409, 'payload': {'kind': 'Status', 'code': 409, 'message': 'conflict'}})
+    out.append({'cls': 'apiforbidden', 'status': 403, 'payload': 'plain text from a proxy'})
+    out.append({'cls': 'apiserver', 'status': 503, 'payload': None})
+    out.append({'cls': 'httperror', 'attrs': {'code': 404, 'message': 'Not Found'}})
+    out.append({'cls': 'aiohttp', 'attrs': {'code': 403, 'message': 'Forbidden'}})
+    return out
+
+
+FOREIGN_ERRORS = _foreign_errors()
+
+
 def wire_patches() -> list[tuple[str, dict, dict]]:
     """(name, object, patch content): '~' and '/' in keys, '?', '>', '~' in values, after a padding key/value prefix of length
     0..2, so that each of them falls at each of the three alignments of the serialised (then base64-encoded) patch."""
@@ -112,10 +137,25 @@ class K:
         class Both(execution.TemporaryError, execution.PermanentError):
             pass
 
+        # exceptions of OTHER classes which carry the attributes an AdmissionError has (code, message)
+        class CodeCarrier(Exception):
+            pass
+
+        class PermWithCode(execution.PermanentError):
+            pass
+
+        class TempWithCode(execution.TemporaryError):
+            pass
+
+        from kopf._cogs.clients import errors as api_errors
+        cls.api_errors = api_errors
         cls.exc_classes = {
             'adm': admission.AdmissionError, 'admsub': MyAdmission, 'perm': execution.PermanentError,
             'timeout': execution.HandlerTimeoutError, 'temp': execution.TemporaryError, 'both': Both,
             'value': ValueError, 'key': KeyError, 'exc': Exception, 'runtime': RuntimeError,
+            'codeexc': CodeCarrier, 'permcode': PermWithCode, 'tempcode': TempWithCode,
+            'apinotfound': api_errors.APINotFoundError, 'apiforbidden': api_errors.APIForbiddenError,
+            'apiconflict': api_errors.APIConflictError, 'apiserver': api_errors.APIServerError,
         }
         # observation point: the third-party diff function as kopf's patches module calls it
         cls.diff_calls: list[tuple[Any, Any]] = []
@@ -151,19 +191,35 @@ class K:
 
 
 def make_exc(spec: dict) -> BaseException:
-    cls = K.exc_classes[spec['cls']]
+    cls = K.exc_classes.get(spec['cls'])
     args = spec.get('args', [])
     if spec['cls'] in ('adm', 'admsub'):
         kw = {}
         if 'code' in spec:
             kw['code'] = spec['code']
         return cls(*args, **kw)
-    return cls(*args)
+    if spec['cls'].startswith('api'):          # kopf's own K8s API errors, as the client builds them from a response
+        return cls(spec.get('payload'), status=spec.get('status', 500), headers={})
+    if spec['cls'] == 'httperror':
+        import urllib.error
+        return urllib.error.HTTPError('http://k8s/api', spec['attrs']['code'], spec['attrs'].get('message', ''), {}, None)  # type: ignore[arg-type]
+    if spec['cls'] == 'aiohttp':
+        import aiohttp
+        import yarl
+        ri = aiohttp.RequestInfo(url=yarl.URL('http://k8s/api'), method='GET', headers={}, real_url=yarl.URL('http://k8s/api'))  # type: ignore[arg-type]
+        return aiohttp.ClientResponseError(ri, (), status=spec['attrs']['code'], message=str(spec['attrs'].get('message', '')))
+    e = cls(*args)
+    for k, v in (spec.get('attrs') or {}).items():
+        setattr(e, k, v)
+    return e
 
 
 def herror_of(e: BaseException) -> dict:
     """What build_response can see of an exception object (Python's str/repr/isinstance are the oracles)."""
-    code = getattr(e, 'code', None)
+    import warnings
+    with warnings.catch_warnings():
+        warnings.simplefilter('ignore')
+        code = getattr(e, 'code', None)     # supplied for EVERY class: whether it counts is decided by the class alone
     return {'adm': isinstance(e, K.admission.AdmissionError), 'perm': isinstance(e, K.execution.PermanentError),
             'temp': isinstance(e, K.execution.TemporaryError), 'str': str(e), 'repr': repr(e),
             'code': code if isinstance(code, int) and not isinstance(code, bool) else None}
@@ -791,7 +847,12 @@ def c_run(sc: dict) -> str:
 
 
 def c_status(st: dict | None) -> str:
-    return 'None' if st is None else f'(Some ({cq.cstr(st["message"])}, {cq.cZ(st["code"])}))'
+    if st is None:
+        return 'None'
+    code = st.get('code')
+    if isinstance(code, bool) or not isinstance(code, int):
+        code = -987654321      # not an integer at all: cannot agree with the model
+    return f'(Some ({cq.cstr(st["message"])}, {cq.cZ(code)}))'
 
 
 # =====================================================================================================
@@ -897,6 +958,8 @@ class Gen18:
 
     def exc_spec(self) -> dict:
         r = self.r
+        if r.random() < 0.3:
+            return r.choice(FOREIGN_ERRORS)
         cls = r.choice(['adm', 'adm', 'adm', 'admsub', 'perm', 'perm', 'timeout', 'temp', 'temp', 'both', 'value', 'key', 'exc', 'runtime'])
         msgs = ['no way', '', 'Ошибка: нельзя', 'quote " and \\ back', 'denied: spec.field is immutable', 'x']
         spec: dict[str, Any] = {'cls': cls}
@@ -1253,6 +1316,9 @@ def response_cases(ctx: fw.Ctx, G: Gen18, n: int, D: dict[str, list[fw.Case]], e
     for k in range(0, exhaustive_k + 1):        # all combinations of the 5 outcome kinds for <= k handlers
         for combo in itertools.product(range(5), repeat=k):
             tables.append([None if c == 0 else {**kinds[c], 'args': [f'{kinds[c]["args"][0]}{i}']} for i, c in enumerate(combo)])
+    adm = {'cls': 'adm', 'args': ['denied'], 'code': 403}
+    for fe in FOREIGN_ERRORS:
+        tables += [[fe], [fe, adm], [adm, fe], [None, fe, {'cls': 'value', 'args': ['v']}], [{'cls': 'temp', 'args': ['t']}, fe]]
     n_exh = len(tables)
     for _ in range(n):
         tables.append([G.exc_spec() if r.random() < 0.6 else None for _ in range(r.choice([0, 1, 2, 3, 4, 5, 6]))])
@@ -1291,6 +1357,9 @@ def response_cases(ctx: fw.Ctx, G: Gen18, n: int, D: dict[str, list[fw.Case]], e
                 f'&& {c_wire(o["text"], o["wire"], o["ops"], "r", ops)}')
         D['build'].append(fw.Case(term, {**data, 'response': resp}, diag=f'let r := {br} in (r_allowed r, r_warnings r, r_status r)'))
         ctx.count('outcome_table', 'exhaustive' if ti < n_exh else 'random')
+        for sp, e in zip(specs, excs):
+            if e is not None and not isinstance(e, K.admission.AdmissionError) and hasattr(e, 'code'):
+                ctx.count('foreign_code', f'{sp["cls"]}: {type(getattr(e, "code")).__name__}')
         ctx.count('errors_in_table', str(len(errs)))
 
 
